@@ -69,7 +69,8 @@ func mapEntryName(field string) string {
 
 type lowerer struct {
 	msgPath string
-	pkg  string
+	pkg     string
+	proto2  bool
 	locs []*descriptorpb.SourceCodeInfo_Location
 }
 
@@ -135,7 +136,9 @@ func (l *lowerer) field(f *Field, idx int, m *Message, md *descriptorpb.Descript
 	switch f.Card {
 	case "":
 	case "optional":
-		fd.Proto3Optional = proto.Bool(true)
+		if !l.proto2 {
+			fd.Proto3Optional = proto.Bool(true)
+		}
 	case "repeated":
 		fd.Label = descriptorpb.FieldDescriptorProto_LABEL_REPEATED.Enum()
 	case "map":
@@ -281,10 +284,13 @@ var StdImports = []string{
 
 // LowerFile lowers one file.
 func LowerFile(f *File, defaultGoPkg string) (*descriptorpb.FileDescriptorProto, error) {
-	l := &lowerer{pkg: f.Package}
+	l := &lowerer{pkg: f.Package, proto2: f.Proto2}
 	fd := &descriptorpb.FileDescriptorProto{
 		Name:   proto.String(f.Path),
 		Syntax: proto.String("proto3"),
+	}
+	if f.Proto2 {
+		fd.Syntax = proto.String("proto2")
 	}
 	if f.Package != "" {
 		fd.Package = proto.String(f.Package)
